@@ -15,6 +15,14 @@ use cw_multi_test::{Executor, SudoMsg, WasmSudo};
 use std::collections::{BTreeMap, BTreeSet};
 
 fn run(o: &Opts) {
+    run_from(o, false)
+}
+
+/// `vary_root`: the root script runs as the migrate entry point (raw WasmMsg::Migrate to the same code)
+/// or as sudo instead of execute: same composition rules, own first event; migrate results are wrapped
+/// like execute results (seed C04d), no wrapping is specified for sudo
+fn run_from(o: &Opts, vary_root: bool) {
+    let root_entry = if vary_root { 1 + choose(2) } else { 0 };
     let mut w = world(o.max_depth + 1);
     let root = gen_tree(o);
     let mut uids = BTreeMap::new();
@@ -25,8 +33,17 @@ fn run(o: &Opts) {
     sc::trace_clear();
     let (user, k0) = (w.user.clone(), w.ks[0].clone());
     // the raw message (not the execute_contract helper), so that the response encoding is visible
-    let msg: CosmosMsg = WasmMsg::Execute { contract_addr: k0.to_string(), msg: script.bin(), funds: vec![] }.into();
-    let r = catch(|| w.app.execute(user, msg));
+    let msg: CosmosMsg = match root_entry {
+        2 => WasmMsg::Migrate { contract_addr: k0.to_string(), new_code_id: 1, msg: script.bin() }.into(),
+        _ => WasmMsg::Execute { contract_addr: k0.to_string(), msg: script.bin(), funds: vec![] }.into(),
+    };
+    let r = catch(|| {
+        if root_entry == 1 {
+            w.app.sudo(SudoMsg::Wasm(WasmSudo { contract_addr: k0.clone(), message: script.bin() }))
+        } else {
+            w.app.execute(user, msg)
+        }
+    });
     let r = match r {
         Ok(r) => r,
         Err(p) => {
@@ -38,15 +55,22 @@ fn run(o: &Opts) {
     let mut it = Interp::new(&w, &uids);
     let exp = it.run(&root, &st0);
     match (r, exp) {
-        (Ok(resp), Ok((_, out))) => {
+        (Ok(resp), Ok((_, mut out))) => {
             witness("ok");
+            match root_entry {
+                1 => out.events[0] = "sudo@0[]".into(),
+                2 => out.events[0] = "migrate@0[code_id=1]".into(),
+                _ => {}
+            }
             let got: Vec<String> = resp.events.iter().map(|e| event_sig(&w, e)).collect();
             check_native("events_in_execution_order_per_wasmd_rules", got == out.events, || format!("expected {:?} got {:?}", out.events, got));
             let want = out.data.as_ref().map(|d| encode_exec(d));
             let gotd = resp.data.as_ref().map(|d| d.to_vec());
-            check_native("data_is_last_reply_data_else_own_wrapped_only_when_present", gotd == want, || {
-                format!("expected {:?} got {:?}", want, gotd)
-            });
+            if root_entry != 1 {
+                check_native("data_is_last_reply_data_else_own_wrapped_only_when_present", gotd == want, || {
+                    format!("expected {:?} got {:?}", want, gotd)
+                });
+            }
             if out.data.is_some() {
                 witness("ok_with_data");
             }
@@ -180,6 +204,9 @@ pub fn scenarios(tier: &str) -> Vec<Scenario> {
     let mut v = vec![];
     v.push(Scenario::new("trees_depth2_nodes3_output_varied", &["ok", "err", "ok_with_data", "custom_event"], || {
         run(&Opts { max_depth: 2, max_nodes: 3, max_children: 2, vary_output: true, vary_ids: false, reply_subs: false, inst_leaves: false })
+    }));
+    v.push(Scenario::new("trees_depth1_nodes3_root_is_migrate_or_sudo", &["ok", "err", "ok_with_data"], || {
+        run_from(&Opts { max_depth: 1, max_nodes: 3, max_children: 2, vary_output: true, vary_ids: false, reply_subs: false, inst_leaves: false }, true)
     }));
     v.push(Scenario::new("instantiate_sudo_migrate_entry_points", &["instantiate", "sudo", "migrate"], entry_points));
     v.push(Scenario::new("trees_nodes3_replies_emitting_submessages_instantiate_leaves", &["ok", "err", "ok_with_data"], || {
